@@ -289,6 +289,9 @@ type Summary struct {
 	Violations []Violation    `json:"violations"`
 	WallS      float64        `json:"wall_s"`
 	FirstSeed  uint64         `json:"first_seed"`
+	// ResumeAt > 0: the worker stopped before run index ResumeAt (memory held by goroutines
+	// that earlier runs left behind); the driver continues from there in a fresh process
+	ResumeAt   int            `json:"resume_at,omitempty"`
 	LastSeed   uint64         `json:"last_seed"`
 	AllHashes  map[string]string `json:"all_hashes,omitempty"` // seed -> hash (determinism test)
 }
